@@ -298,6 +298,23 @@ func (c *Canon) render(v ssa.Value, d int) string {
 				}
 			}
 		}
+		if v.Op == token.ADD || v.Op == token.SUB {
+			// constant offset of a shifted index: (k+‹i›)-c
+			if cst, ok := intConst(v.Y); ok {
+				if k, ok := inductionStart(stripConv(v.X)); ok {
+					n := new(big.Int).Add(k, cst)
+					if v.Op == token.SUB {
+						n = new(big.Int).Sub(k, cst)
+					}
+					switch {
+					case n.Sign() == 0:
+						return "‹i›"
+					case n.Sign() > 0:
+						return "(" + n.String() + "+‹i›)"
+					}
+				}
+			}
+		}
 		x, y := c.termD(v.X, d+1), c.termD(v.Y, d+1)
 		if commutative(v.Op) && x > y {
 			x, y = y, x
@@ -349,8 +366,11 @@ func (c *Canon) render(v ssa.Value, d int) string {
 		}
 		return c.call(v.Common(), d)
 	case *ssa.Phi:
-		if isInductionVar(v) {
-			return "‹i›"
+		if k, ok := inductionStart(v); ok {
+			if k.Sign() == 0 {
+				return "‹i›"
+			}
+			return "(" + k.String() + "+‹i›)"
 		}
 		carried, rl := c.rotExitPhi(v)
 		if carried != nil && len(v.Edges) == 2 {
@@ -373,8 +393,8 @@ func (c *Canon) render(v ssa.Value, d int) string {
 					}
 				}
 				if p2, ok := e.(*ssa.Phi); ok {
-					if p2 == v && ph == v {
-						set["↺="] = true // some back edge leaves the value unchanged
+					if p2 == v {
+						set["↺="] = true // some path around the loop leaves the value unchanged
 					}
 					if !seenPhi[p2] {
 						seenPhi[p2] = true
@@ -425,14 +445,35 @@ func (c *Canon) lval(v ssa.Value, d int) string {
 	switch v := v.(type) {
 	case *ssa.FieldAddr:
 		base := c.termD(v.X, d+1)
-		base = strings.TrimPrefix(base, "&")
+		base = uncopy(strings.TrimPrefix(base, "&"))
 		return base + "." + fieldName(v.X.Type(), v.Field)
 	case *ssa.IndexAddr:
 		base := c.termD(v.X, d+1)
-		base = strings.TrimPrefix(base, "&")
+		base = uncopy(strings.TrimPrefix(base, "&"))
 		return base + "[" + c.termD(v.Index, d+1) + "]"
 	}
 	return c.termD(v, d)
+}
+
+// uncopy: "{V}" is a local that only ever holds V (a range value, a by-value copy); a field or
+// element of the copy is the field or element of V.
+func uncopy(base string) string {
+	if len(base) < 3 || base[0] != '{' || base[len(base)-1] != '}' {
+		return base
+	}
+	depth := 0
+	for i := 0; i < len(base); i++ {
+		switch base[i] {
+		case '{':
+			depth++
+		case '}':
+			depth--
+			if depth == 0 && i != len(base)-1 {
+				return base
+			}
+		}
+	}
+	return base[1 : len(base)-1]
 }
 
 func (c *Canon) calleeName(cc *ssa.CallCommon) string {
